@@ -210,13 +210,7 @@ func removeIfCallbacks(fns []*ssa.Function) (out []struct {
 			if f == nil || f.Name() != "RemoveIf" || len(c.Call.Args) < 2 {
 				return
 			}
-			var clo *ssa.Function
-			switch a := c.Call.Args[1].(type) {
-			case *ssa.MakeClosure:
-				clo, _ = a.Fn.(*ssa.Function)
-			case *ssa.Function:
-				clo = a
-			}
+			clo := resolveCallback(c.Call.Args[1])
 			out = append(out, struct {
 				call *ssa.Call
 				clo  *ssa.Function
